@@ -15,6 +15,34 @@ def tz(minutes):
     return datetime.timezone(datetime.timedelta(minutes=minutes))
 
 
+class SeasonTZ(datetime.tzinfo):
+    """a zone whose offset depends on the date (as zoneinfo / pytz / dateutil zones do): `winter` minutes from October
+    to March, `summer` minutes from April to September.  ONE shared object per zone, as applications have."""
+
+    def __init__(self, winter, summer, names):
+        self.w, self.s, self.names = winter, summer, names
+
+    def _summer(self, dt):
+        return dt is not None and 4 <= dt.month <= 9
+
+    def utcoffset(self, dt):
+        return datetime.timedelta(minutes=self.s if self._summer(dt) else self.w)
+
+    def tzname(self, dt):
+        return self.names[1 if self._summer(dt) else 0]
+
+    def dst(self, dt):
+        return datetime.timedelta(minutes=(self.s - self.w) if self._summer(dt) else 0)
+
+    def __reduce__(self):
+        return (SeasonTZ, (self.w, self.s, self.names))
+
+    def __repr__(self):
+        return f"SeasonTZ({self.w}, {self.s}, {self.names})"
+
+
+EASTERN = SeasonTZ(-300, -240, ("EST", "EDT"))
+
 DT_ALPHA = [
     datetime.datetime(2024, 2, 29, 12, 30, 15, 0, tzinfo=UTC),
     datetime.datetime(2023, 1, 1, 0, 0, 0, 0, tzinfo=UTC),
@@ -23,6 +51,9 @@ DT_ALPHA = [
     datetime.datetime(2023, 12, 31, 23, 45, 0, 500000, tzinfo=tz(-30)),
     datetime.datetime(2024, 1, 1, 0, 15, 0, 0, tzinfo=tz(330)),
     datetime.datetime(2100, 2, 28, 23, 59, 59, 0, tzinfo=tz(840)),
+    datetime.datetime(2024, 6, 30, 20, 15, 0, 0, tzinfo=tz(-210)),
+    datetime.datetime(2024, 1, 15, 9, 0, 0, 0, tzinfo=EASTERN),
+    datetime.datetime(2024, 7, 15, 9, 0, 0, 0, tzinfo=EASTERN),
 ]
 TM_ALPHA = [
     datetime.time(12, 30, 15, 0, tzinfo=UTC),
@@ -32,8 +63,11 @@ TM_ALPHA = [
     datetime.time(23, 45, 0, 500000, tzinfo=tz(-30)),
     datetime.time(0, 15, 0, 0, tzinfo=tz(330)),
     datetime.time(23, 59, 59, 0, tzinfo=tz(840)),
+    datetime.time(20, 15, 0, 0, tzinfo=tz(-210)),
+    datetime.time(0, 30, 0, 0, tzinfo=tz(570)),
 ]
-STR_BASE = ["a", None, "A&B<c>\"'", "é€ ü", "a  b", "0", "x>y]]>z", "&amp;"]
+# N.B. the constructor decodes entities in str input: "&amp;amp;" is how an instance comes to HOLD the text "&amp;"
+STR_BASE = ["a", None, "A&B<c>\"'", "é€ ü", "a  b", "0", "x>y]]>z", "&amp;", "&amp;amp;", "a&amp;lt;b"]
 
 
 def _cut(s, n):
